@@ -26,6 +26,15 @@ from typing import ClassVar, Optional
 from compiler.util import ir_data_fields
 from compiler.util import parser_types
 
+# Integers in the IR are arbitrary-precision and are stored as decimal strings;
+# every pass converts them back and forth.  Python 3.11+ refuses int <-> str
+# conversions beyond 4300 digits by default, which would turn an over-long
+# numeric literal in a source file into an uncaught ValueError instead of the
+# "cannot fit in a 64-bit integer" diagnostic.  Source files are trusted input
+# to a compiler, so lift the limit.
+if hasattr(sys, "set_int_max_str_digits"):
+    sys.set_int_max_str_digits(0)
+
 
 @dataclasses.dataclass
 class Message:
